@@ -204,6 +204,14 @@ def run(chk, model_ok=True):
             elif rng.random() < 0.2:
                 s.recv(rec["op"], [])
         longest = max(longest, orc.n)
+    # the real sync and async clients, incl. discovery with lost probes and retries: a user with a privacy key
+    # never sends a request in clear
+    from props import c13
+    n_cli = 0
+    for key, script, r, why in c13.client_cases(rng, 12 if quick else 300):
+        n_cli += 1
+        if why and any(w in why for w in ("not encrypted", "priv flag", "carries user", "failed with")):
+            fail(f"{key}: {why}", f"# client {key}")
     nl, nd = sessions.model_compare(chk, all_sess, model_ok)
     chk.coverage.update({
         "evaluations": n_msg + n_pairs,
@@ -216,7 +224,7 @@ def run(chk, model_ok=True):
                 "changing boots/time, timeouts, oversized requests and set_keys re-installations; every history replayed on "
                 "the Lean model with the seed read off the first salt. distinct = distinct (key installation, msgPrivacyParameters) pairs actually observed (equals the number of messages iff no salt repeated).",
         "samples": [{"stream": "privenc", "request": st.lines[0][:200], "impl": st.impl[0][:120]}] if st.lines else [],
-        "session_messages": n_msg, "cipher_level_encrypts": n_pairs, "key_installations": installs,
+        "session_messages": n_msg, "client_runs": n_cli, "cipher_level_encrypts": n_pairs, "key_installations": installs,
         "longest_installation_messages": longest,
         "session_lines": nl, "session_lines_disagreeing": nd,
         "traces_validated_against_impl": nl + len(st.lines) if model_ok else 0,
